@@ -150,6 +150,21 @@ CHECKS = {
                   "families. No axioms.",
         technique="Rocq print/scan round-trip + first-occurrence invariant + correspondence (vm_compute) + oracle",
         ref="§C18"),
+    "C13": dict(
+        text="C13_lifo (restore after save and any well-bracketed activity returns the saved transform and stack), "
+             "C13_named_immutable (restoring a name yields the saved value whatever happened in between, except "
+             "re-saving/deleting that name), C13_current/named_transform_restores (exit puts back the entry transform and "
+             "stack for every body incl. bodies that pop outer stack entries and nested contexts), C13_reverse "
+             "(reverse(apply p) = p in every reachable state: all reachable transforms invertible, by multiplicativity "
+             "of det over translate/scale!=0/rotate(c^2+s^2=1)/reflect(n!=0); inverse by adjugate proved with field), "
+             "C13_pivot_fixed. Correspondence: op sequences with nested contexts and raising bodies, probe points through "
+             "apply/reverse; oracle: independent immutable-snapshot 4x4 float model.",
+        note=TB + "Exact rational arithmetic in the model; rotations enter as (cos, sin) rounded to 32 fractional bits in "
+                  "the correspondence (tolerance 1e-7). Modelled, not verified: scipy.linalg.inv, Rotation.from_rotvec, "
+                  "copy.deepcopy (aliasing is judged by correspondence + oracle). delete_state does not strip names "
+                  "(names are generated without blanks). No axioms.",
+        technique="Rocq proofs (induction over bracketed op lists, field/ring algebra) + correspondence (vm_compute) + oracle",
+        ref="§C13"),
 }
 
 PENDING_REASON = "check not built yet in this session (work in progress; see DESIGN.md §10 for the order)"
